@@ -11,6 +11,12 @@
 //!   F3  exactly one module is named "CWE78"                                          ("every check except the OS-command-injection check")
 //!   F4  `MODULES_LKM` has no entry twice
 //!   F5  every entry of `MODULES_LKM` other than the recorded dangling entry "CWE457" (observation O1) is the name of a module
+//!   F6  STAND-IN for the inline kernel-module filter of run_with_ghidra (`MODULES_LKM.contains(&module.name)`, retyped here because
+//!       the statement lives in the binary crate): for every module of `get_modules()` the expression answers exactly
+//!       "the name is one of the documented kernel-module checks" (LKM_DOC: the check keys of src/lkm_config.json).  The expression
+//!       is written so that it compiles for every type of `MODULES_LKM` the caller's text compiles for (an array / slice of names:
+//!       element equality; a `&str`: SUBSTRING test, which answers true for "CWE78" inside "CWE789").  F4 / F5 need the entries and
+//!       are skipped when `MODULES_LKM` is not a list.
 //!   O1  is REPORTED in the sweep output (`dangling_lkm_entries`), not counted as a disagreement.
 //!
 //! Twin `c22.split` (ASSUMPTION CHECK of shim/modsel.rs): the deductive unit verifies `filter_modules_for_partial_run` against
@@ -28,11 +34,33 @@ const KNOWN: [&str; 19] = [
 ];
 const OSCMD: &str = "CWE78";
 const DANGLING: [&str; 1] = ["CWE457"];
+/// the kernel-module checks as documented: the keys of src/lkm_config.json that are check names
+const LKM_DOC: [&str; 10] = ["CWE134", "CWE190", "CWE215", "CWE252", "CWE416", "CWE457", "CWE467", "CWE476", "CWE676", "CWE789"];
+
+/// the entries of `MODULES_LKM`, whatever its type: a list of names has entries, a single string has none
+trait LkmView {
+    fn entries(&self) -> Option<Vec<&'static str>>;
+}
+impl<const N: usize> LkmView for [&'static str; N] {
+    fn entries(&self) -> Option<Vec<&'static str>> {
+        Some(self.to_vec())
+    }
+}
+impl LkmView for &'static [&'static str] {
+    fn entries(&self) -> Option<Vec<&'static str>> {
+        Some(self.to_vec())
+    }
+}
+impl LkmView for &'static str {
+    fn entries(&self) -> Option<Vec<&'static str>> {
+        None
+    }
+}
 
 fn facts() -> Vec<(&'static str, Value, Value)> {
     // (fact, expected, got)
     let names: Vec<&str> = cwe_checker_lib::get_modules().iter().map(|m| m.name).collect();
-    let lkm: Vec<&str> = cwe_checker_lib::checkers::MODULES_LKM.to_vec();
+    let lkm_entries: Option<Vec<&str>> = cwe_checker_lib::checkers::MODULES_LKM.entries();
     let mut out = Vec::new();
     let mut dup: Vec<&str> = Vec::new();
     for (i, n) in names.iter().enumerate() {
@@ -45,21 +73,27 @@ fn facts() -> Vec<(&'static str, Value, Value)> {
     let want: BTreeSet<&str> = KNOWN.iter().cloned().collect();
     out.push(("F2 names of get_modules() == known names", json!(want), json!(got)));
     out.push(("F3 exactly one module named CWE78", json!(1), json!(names.iter().filter(|n| **n == OSCMD).count())));
-    let mut bad: Vec<&str> = Vec::new();
-    for (i, n) in lkm.iter().enumerate() {
-        if lkm[..i].contains(n) {
-            bad.push(n);
+    if let Some(lkm) = &lkm_entries {
+        let mut bad: Vec<&str> = Vec::new();
+        for (i, n) in lkm.iter().enumerate() {
+            if lkm[..i].contains(n) {
+                bad.push(n);
+            }
         }
+        out.push(("F4 MODULES_LKM: no entry twice", json!([]), json!(bad)));
+        let unknown: Vec<&str> = lkm.iter().cloned().filter(|n| !names.contains(n) && !DANGLING.contains(n)).collect();
+        out.push(("F5 every MODULES_LKM entry (except the recorded dangling CWE457) names a module", json!([]), json!(unknown)));
     }
-    out.push(("F4 MODULES_LKM: no entry twice", json!([]), json!(bad)));
-    let unknown: Vec<&str> = lkm.iter().cloned().filter(|n| !names.contains(n) && !DANGLING.contains(n)).collect();
-    out.push(("F5 every MODULES_LKM entry (except the recorded dangling CWE457) names a module", json!([]), json!(unknown)));
+    // F6: the caller's membership expression, module by module
+    let selected: Vec<&str> = names.iter().cloned().filter(|name| { let module_name: &str = name; cwe_checker_lib::checkers::MODULES_LKM.contains(&module_name) }).collect();
+    let expected: Vec<&str> = names.iter().cloned().filter(|name| LKM_DOC.contains(name)).collect();
+    out.push(("F6 `MODULES_LKM.contains(&module.name)` selects exactly the documented kernel-module checks", json!(expected), json!(selected)));
     out
 }
 
 fn dangling() -> Vec<&'static str> {
     let names: Vec<&str> = cwe_checker_lib::get_modules().iter().map(|m| m.name).collect();
-    cwe_checker_lib::checkers::MODULES_LKM.iter().cloned().filter(|n| !names.contains(n)).collect()
+    cwe_checker_lib::checkers::MODULES_LKM.entries().unwrap_or_default().into_iter().filter(|n| !names.contains(n)).collect()
 }
 
 /// executable copy of `ms_is_piece(s, c, p)`: all `s[a..b]` with `ms_piece_at(s, c, a, b)`
